@@ -41,19 +41,24 @@ InsK(i) == IF Touched(i) /\ R.e = "ins" /\ R.res = "inserted" THEN {R.k} ELSE {}
 RemK(i) == IF Touched(i) /\ R.e = "rem" /\ R.found[1] = "present" THEN {R.k} ELSE {}
 UpdK(i) == IF Touched(i) /\ R.e = "upd" /\ R.found[1] = "present" THEN {R.k} ELSE {}
 NewPending(i) == Touched(i) /\ R.e = "ins" /\ R.res = "pending"
-Appeared(i) == (KeysOf(R.b[i]) \ KeysOf(bk[i])) \ InsK(i)
+\* the bucket's pending key was applied and then removed by this very `rem` (never visible in a projected state)
+RemApplied(i) == Touched(i) /\ R.e = "rem" /\ R.found[1] = "present" /\ ~Empty(pd[i]) /\ pd[i][1] = R.k /\ R.k \notin KeysOf(bk[i])
+Appeared(i) == ((KeysOf(R.b[i]) \ KeysOf(bk[i])) \ InsK(i)) \cup (IF RemApplied(i) THEN {R.k} ELSE {})
 Vanished(i) == (KeysOf(bk[i]) \ KeysOf(R.b[i])) \ RemK(i)
 AppliedAt(i) == Appeared(i) # {}
 
 BucketStep(i) ==
-  LET P == bk[i]  Q == R.b[i] IN
-  /\ InsK(i) \subseteq KeysOf(Q) /\ InsK(i) \cap KeysOf(P) = {} /\ RemK(i) \cap KeysOf(Q) = {}
+  LET P == bk[i]  Q == R.b[i]  KP == KeysOf(bk[i])  KQ == KeysOf(R.b[i])
+      ins == InsK(i)  rem == RemK(i)
+      app == Appeared(i)   van == (KP \ KQ) \ rem IN
+  /\ ins \subseteq KQ /\ ins \cap KP = {} /\ rem \cap KQ = {}
   \* entering / leaving
-  /\ \/ Appeared(i) = {} /\ Vanished(i) = {}
-     \/ /\ ~Empty(pd[i]) /\ Appeared(i) = {pd[i][1]} /\ R.now >= due[i]
-        /\ StOf(Q, pd[i][1]) = (IF pd[i][1] \in UpdK(i) THEN R.st ELSE pd[i][2])     \* (applied, then updated by this very op)
-        /\ \/ Vanished(i) = {} /\ Len(P) < cap
-           \/ Len(P) >= cap /\ Vanished(i) = {P[1][1]} /\ P[1][2] = 0
+  /\ \/ app = {} /\ van = {}
+     \/ /\ ~Empty(pd[i]) /\ app = {pd[i][1]} /\ R.now >= due[i]
+        /\ IF RemApplied(i) THEN R.found[2] = pd[i][2]
+           ELSE StOf(Q, pd[i][1]) = (IF pd[i][1] \in UpdK(i) THEN R.st ELSE pd[i][2])     \* (applied, then updated by this very op)
+        /\ \/ van = {} /\ Len(P) < cap
+           \/ Len(P) >= cap /\ van = {P[1][1]} /\ P[1][2] = 0
   \* statuses of the untouched survivors are unchanged; an updated present key has the requested status
   /\ \A k \in (KeysOf(P) \cap KeysOf(Q)) \ UpdK(i) : StOf(Q, k) = StOf(P, k)
   /\ \A k \in UpdK(i) : k \in KeysOf(Q) => StOf(Q, k) = R.st
@@ -107,9 +112,9 @@ Op == /\ R.e \in {"ins", "upd", "rem", "get", "closest", "tick"}
          THEN TRUE ELSE FALSE
       /\ now' = R.now /\ bk' = R.b /\ pd' = R.p
       /\ due' = [i \in 1..B |-> NewDue(i)]
-      /\ stamp' = [k \in DOMAIN stamp |->
-                     IF \E i \in 1..B : k \in InsK(i) \cup UpdK(i) THEN 2 * l + 1
-                     ELSE IF \E i \in 1..B : k \in Appeared(i) THEN 2 * l ELSE stamp[k]]
+      /\ LET opk == UNION {InsK(i) \cup UpdK(i) : i \in 1..B}
+             apk == UNION {Appeared(i) : i \in 1..B} IN
+         stamp' = [k \in DOMAIN stamp |-> IF k \in opk THEN 2 * l + 1 ELSE IF k \in apk THEN 2 * l ELSE stamp[k]]
       /\ UNCHANGED <<B, local, cap, timeout>>
 
 Next == l <= NRec /\ l' = l + 1 /\ (Reset \/ Op)
